@@ -28,6 +28,14 @@ def deadline(seconds):
         signal.signal(signal.SIGALRM, old)
 
 
+def _plain(x):
+    import json
+    try:
+        return json.loads(json.dumps(x, default=repr))
+    except (TypeError, ValueError):
+        return json.loads(json.dumps(repr(x)))
+
+
 class BlockResult:
     def __init__(self):
         self.stats = Counter()
@@ -39,6 +47,11 @@ class BlockResult:
         self.hist_sig = {}
 
     def violation(self, sig, scenario, message):
+        # plain JSON data only: objects of the library (str subclasses carrying a machine, ...)
+        # must not travel between processes or into replay files
+        sig = _plain(sig)
+        scenario = _plain(scenario)
+        message = str(message)[:] + ""
         # keep a few examples per distinct signature so that one frequent category cannot hide
         # the others
         key = repr(sorted(sig.items()))
